@@ -272,6 +272,7 @@ def run(tier, seed):
     res = vlib.robust_map(family_run, jobs, chunk=1, timeout=300 if tier == "quick" else 1800, procs=14)
     table = {}
     nontrivial = 0
+    suspects, judged = [], []
     for job, r in zip(jobs, res):
         c.cov["evaluations"] += 1
         if isinstance(r, tuple) and r and r[0] in ("CRASH", "TIMEOUT", "PYEXC"):
@@ -284,18 +285,31 @@ def run(tier, seed):
             c.fail("family %r: %s" % (rec["name"], rec["fail"]), {"family": rec["name"]})
         probs = judge(rec)
         if probs and all(p.startswith("C t") for p in probs):
-            # CPU time is the only complaint: measure this family again, alone (the first pass runs 14 families at
-            # once), and keep the smaller time per size; only a complaint that survives is reported
-            for _attempt in range(3):
-                again = vlib.robust_map(family_run, [job], chunk=1, timeout=600, procs=1)[0]
-                if isinstance(again, tuple) and again and again[0] in ("CRASH", "TIMEOUT", "PYEXC"):
-                    break
-                best = {n: t for (n, _l, t) in again["c"]}
+            suspects.append((job, rec))
+            continue
+        judged.append((job, rec, probs))
+    # CPU time is the only complaint of these families: measure them again with little else running (the first pass runs 14
+    # families at once) and keep the smaller time per size; only a complaint that survives is reported.  Two passes of four at a
+    # time, then - for at most three families - one pass alone.
+    for attempt, procs in enumerate((4, 4, 1)):
+        if not suspects or (procs == 1 and len(suspects) > 3):
+            break
+        again = vlib.robust_map(family_run, [j for j, _r in suspects], chunk=1, timeout=240, procs=procs)
+        still = []
+        for (job, rec), ag in zip(suspects, again):
+            c.notes.setdefault("remeasured", []).append(rec["name"])
+            if not (isinstance(ag, tuple) and ag and ag[0] in ("CRASH", "TIMEOUT", "PYEXC")):
+                best = {n: t for (n, _l, t) in ag["c"]}
                 rec["c"] = [(n, l, min(t, best.get(n, t))) for (n, l, t) in rec["c"]]
-                probs = judge(rec)
-                c.notes.setdefault("remeasured", []).append(rec["name"])
-                if not probs:
-                    break
+            probs = judge(rec)
+            if probs:
+                still.append((job, rec))
+            else:
+                judged.append((job, rec, []))
+        suspects = still
+    for job, rec in suspects:
+        judged.append((job, rec, judge(rec)))
+    for job, rec, probs in judged:
         for p in probs:
             c.fail("family %r: %s" % (rec["name"], p), {"family": rec["name"], "python": rec["py"], "c": rec["c"]})
         if any(n >= 64 for (n, *_r) in rec["py"]):
